@@ -20,6 +20,9 @@ use tera::{Context, Error, Kwargs, Map, Tera, Value};
 use tvh::galvm::*;
 use tvh::*;
 
+#[path = "../c18_history.rs"]
+mod history;
+
 // ---------------------------------------------------------------- compile-time bounds
 // A removed Send/Sync bound makes this file fail to build; the driver reports `corr:build`.
 fn assert_send_sync<T: Send + Sync>() {}
@@ -476,6 +479,50 @@ fn audit_dir(dir: &std::path::Path, root: &std::path::Path, out: &mut Vec<(Strin
 fn replay(path: &std::path::Path) {
     let j: serde_json::Value = serde_json::from_str(&std::fs::read_to_string(path).expect("replay file")).expect("json");
     let inp = j.get("case").or_else(|| j.get("input")).unwrap_or(&j);
+    if let Some(h) = inp.get("history") {
+        let ops: Vec<history::Op> = serde_json::from_value(h.clone()).expect("history ops");
+        silence_panics();
+        let mut counts = history::Counts { observations: 0, compared: 0 };
+        for (i, op) in ops.iter().enumerate() {
+            println!("step {i}: {op:?}");
+        }
+        if std::env::var("VERIF_DUMP").is_ok() {
+            let mut probe = Tera::default();
+            for op in &ops {
+                let items: Vec<history::Op> = match op {
+                    history::Op::AddBatch { items } => items.iter().map(|(n, v)| history::Op::Add { name: n.clone(), version: *v }).collect(),
+                    o => vec![o.clone()],
+                };
+                for o in items {
+                    if let history::Op::Add { name, version } = &o {
+                        println!("  add {name} v{version}: {:?}", probe.add_raw_template(name, &history::body(name, *version)).map_err(|e| e.to_string()));
+                    } else {
+                        println!("  {o:?}: {}", history::apply(&o, &mut probe));
+                    }
+                }
+            }
+            let (b, _) = history::rebuild(&ops);
+            for (k, v) in history::observe(&b, None) {
+                println!("  {k} = {v}");
+            }
+        }
+        match history::first_divergence(&ops, &mut counts) {
+            Some(d) => println!("DIVERGES after step {}: `{}`\n  engine that rendered:        {}\n  same history without renders: {}", d.step, d.label, d.with_renders, d.without_renders),
+            None => println!("no divergence now: the engine that rendered and the one that did not agree after every step ({} observables compared)", counts.compared),
+        }
+        return;
+    }
+    if let Some(sj) = inp.get("oneoff_stress") {
+        silence_panics();
+        let g = |k: &str| sj.get(k).and_then(|x| x.as_u64()).unwrap_or(8) as usize;
+        let mode = sj.get("mode").and_then(|x| x.as_str()).unwrap_or("shared");
+        let rep = history::oneoff_stress(g("threads"), g("rounds"), mode);
+        println!("one-off stress ({} threads, {} rounds, {mode}): {} threads with a wrong result", g("threads"), g("rounds"), rep.failures.len());
+        for (what, _) in rep.failures.iter().take(3) {
+            println!("  {what}");
+        }
+        return;
+    }
     let (Some(sources), Some(job)) = (inp.get("sources"), inp.get("job")) else {
         println!("replay: nothing to re-run on the engine (no sources/job in the file)");
         return;
@@ -708,6 +755,7 @@ fn main() {
     let budget_cap = if thorough { 160 } else { 28 };
     let wfail_rate: (u64, u64) = if thorough { (1, 10) } else { (2, 5) };
     let wcalls_rate: (u64, u64) = if thorough { (1, 40) } else { (1, 9) };
+    let mut history_evals = 0usize;
     let mut distinct_behaviours = std::collections::HashSet::new();
     let mut depth_table: std::collections::BTreeMap<String, Vec<String>> = Default::default();
     for suite in &suites {
@@ -1057,6 +1105,39 @@ fn main() {
         }
     }
 
+    // ---------------- (iv') purity over histories, one-off concurrency stress (c18_history.rs)
+    {
+        let (n_hist, hist_len) = if thorough { (500, 12) } else { (70, 8) };
+        let hrep = history::run_histories(&mut rng, n_hist, hist_len);
+        for (what, input) in &hrep.failures {
+            meta.oracle_fail(what, None, input.clone());
+        }
+        meta.oracle_checks += hrep.compared;
+        meta.extra.insert("purity_histories".into(), json!(hrep.histories));
+        meta.extra.insert("purity_history_steps".into(), json!(hrep.steps));
+        meta.extra.insert("purity_history_engine_observations".into(), json!(hrep.observations));
+        meta.extra.insert("purity_history_observables_compared".into(), json!(hrep.compared));
+        meta.extra.insert("purity_history_ops".into(), json!(hrep.op_tags));
+        meta.extra.insert("purity_history_divergences".into(), json!(hrep.failures.len()));
+        history_evals = hrep.compared;
+        let (thr, rounds) = if thorough { (16usize, 20000usize) } else { (16usize, 4000usize) };
+        let mut stress_renders = 0usize;
+        let mut stress_failures = 0usize;
+        for mode in ["shared", "clones"] {
+            let srep = history::oneoff_stress(thr, rounds, mode);
+            stress_renders += srep.renders;
+            stress_failures += srep.failures.len();
+            for (what, input) in srep.failures.iter().take(2) {
+                meta.oracle_fail(what, None, input.clone());
+            }
+        }
+        meta.oracle_checks += stress_renders;
+        history_evals += stress_renders;
+        meta.extra.insert("oneoff_stress_threads".into(), json!(thr));
+        meta.extra.insert("oneoff_stress_renders".into(), json!(stress_renders));
+        meta.extra.insert("oneoff_stress_threads_with_a_wrong_result".into(), json!(stress_failures));
+    }
+
     // ---------------- (v) source audit
     let repo = std::env::var("VERIF_REPO").unwrap_or_else(|_| "/repo".to_string());
     let root_buf = std::path::Path::new(&repo).join("tera/src");
@@ -1113,7 +1194,7 @@ fn main() {
     meta.extra.insert("concurrent_renders".into(), json!(st.thread_renders));
     meta.extra.insert("concurrent_differences".into(), json!(thread_diffs.len()));
     meta.extra.insert("shared_instance_jobs_x_contexts".into(), json!(pairs.len()));
-    meta.extra.insert("oracle_only_evaluations".into(), json!(st.api_checks + st.fail_at_call_runs + st.budget_runs + st.other_writer_runs + st.repeat_renders + st.thread_renders));
+    meta.extra.insert("oracle_only_evaluations".into(), json!(st.api_checks + st.fail_at_call_runs + st.budget_runs + st.other_writer_runs + st.repeat_renders + st.thread_renders + history_evals));
     meta.extra.insert("oracle_only_nontrivial".into(), json!(distinct_behaviours.len()));
     meta.families.push(wfail.finish());
     meta.families.push(wcalls.finish());
